@@ -101,6 +101,10 @@ type plan struct {
 	// CancelDialCtx: the context passed to DialStream is cancelled right after DialStream returned
 	// (callers routinely do `defer cancel()`); the tunnel must keep working
 	CancelDialCtx bool   `json:"cancelDialCtx,omitempty"`
+	// MixC2S / MixS2C: per-segment write-side operation (see writeMixed); nil = one path for the
+	// whole direction as before
+	MixC2S []int `json:"mixC2S,omitempty"`
+	MixS2C []int `json:"mixS2C,omitempty"`
 	Seed          uint64 `json:"seed"`
 }
 
@@ -205,6 +209,17 @@ func drawPlan(rt *rapid.T) (p plan, nearConst bool) {
 		n, near := boundaryLen(rt, fmt.Sprintf("s2c%d", i), wconsts, 140000)
 		nearConst = nearConst || near && n > 18
 		p.S2C = append(p.S2C, n)
+	}
+	// mixed write-side operations on one connection (before the bursts are appended: the bursts keep
+	// the direction's plain path)
+	if rapid.IntRange(0, 3).Draw(rt, "mix") == 0 {
+		mixGen := rapid.SampledFrom([]int{mixWrite, mixReadFrom, mixEmptyThenWrite, mixFailThenWrite, mixEmptyThenRF, mixFailThenRF, mixEmptyThenWrite, mixFailThenWrite})
+		if len(p.C2S) > 0 && rapid.Bool().Draw(rt, "mixC") {
+			p.MixC2S = rapid.SliceOfN(mixGen, len(p.C2S), len(p.C2S)).Draw(rt, "mixC2S")
+		}
+		if len(p.S2C) > 0 {
+			p.MixS2C = rapid.SliceOfN(mixGen, len(p.S2C), len(p.S2C)).Draw(rt, "mixS2C")
+		}
 	}
 	// long sessions: many tiny writes in one direction so the per-direction nonce counter passes
 	// 255 (first carry) and, rarely, 65535 (second carry); two seals per chunk
@@ -473,7 +488,13 @@ func runPlan(p plan) (res *outcome, labels []string) {
 
 	// ---- data phases (sequential on the application side; the transport never blocks writers)
 	upW := func() *outcome {
-		if err := writeAll(appClient, c2s, p.C2S, p.WPathC, p.EOFWithData, p.ZeroEvery); err != nil {
+		var err error
+		if p.MixC2S != nil {
+			err = writeMixed(appClient, c2s, p.C2S, p.MixC2S, p.WPathC, p.EOFWithData)
+		} else {
+			err = writeAll(appClient, c2s, p.C2S, p.WPathC, p.EOFWithData, p.ZeroEvery)
+		}
+		if err != nil {
 			return fail("C01/client-write-error", "%v", err)
 		}
 		return nil
@@ -490,7 +511,13 @@ func runPlan(p plan) (res *outcome, labels []string) {
 		return nil
 	}
 	downW := func() *outcome {
-		if err := writeAll(appServer, s2c, p.S2C, p.WPathS, p.EOFWithData, p.ZeroEvery); err != nil {
+		var err error
+		if p.MixS2C != nil {
+			err = writeMixed(appServer, s2c, p.S2C, p.MixS2C, p.WPathS, p.EOFWithData)
+		} else {
+			err = writeAll(appServer, s2c, p.S2C, p.WPathS, p.EOFWithData, p.ZeroEvery)
+		}
+		if err != nil {
 			return fail("C01/server-write-error", "%v", err)
 		}
 		return nil
@@ -640,14 +667,15 @@ func serverEndWritten(ep *endpoint) [][]byte { return ep.dialer.serverEnd().Writ
 var rec = ev.New("C01", "tunnel-ledger",
 	"rapid plans: {aes-128,aes-256} x {0..3 identity headers, outer ones stripped by a harness relay using the server-side primitive} x request/response prefix {none, 1-16 B, 70000 B} x segmented-header {allowed, not} "+
 		"x target {IPv4, IPv4-mapped, IPv6, domain of boundary/random length, boundary/random port} x initial payload length (boundary table: 0,1,900,65535-addrLen-2,65494,65462,65535,131070 each +-3; else log-uniform <=140000) "+
-		"x 0-4 writes per direction (boundary table incl. first-write capacity) x read-buffer size cycle {1,2,17,18,4096,65535,65551,70000,random} x copy path per side {Write/Read, ReadFrom(source)/WriteTo(sink)} "+
+		"x 0-4 writes per direction (boundary table incl. first-write capacity) x read-buffer size cycle {1,2,17,18,4096,65535,65551,70000,random} x copy path per side {Write/Read, ReadFrom(source)/WriteTo(sink)}, in a quarter of the plans a per-segment mix of Write, ReadFrom, and ReadFrom from an empty or failing source followed by data "+
 		"x transport fragmentation cycle per direction (1,2,17,18,19,34,35,1460,chunk+tag+-1,random, unlimited; coalescing on/off) x order {client data first, server speaks first} "+
 		"x topology {client<->server, relay chain clientA->serverA<=>clientB->serverB joined by netio.BidirectionalCopy or explicit ReadFrom}. "+
 		"Oracle: byte ledger (Payload++reads == P++writes both ways, EOF only at the end), server-observed target/user/in-request payload length, and an independent decoder of the recorded ciphertext (own BLAKE3 subkey + AES-GCM + nonce counter) "+
 		"checking address bytes, initial-payload split, padding bound, chunk sizes 1..65535 and plaintext equality. "+
 		"Non-trivial: bytes>0 both ways AND (a length within +-3 of a structural constant, or a read buffer smaller than a chunk, or a fragment boundary inside a length chunk, or relay topology). "+
 		"Distinct key: config class + topology + paths + order + boundary classes of payload/write lengths").
-	Require("relay", "eih>=2", "prefix>64KiB", "payload-over-room", "leftover-read", "frag-inside-length-chunk", "path-readfrom", "path-writeto", "server-first", "duplex", "readfrom-source-zero-length-reads", "dial-context-cancelled-after-dial", "dial-context-cancelled-after-excess-payload-write", "nonce-first-carry(>255 seals)", "nonce-second-carry(>65535 seals)", "readfrom-source-eof-with-data", "addr-rechecked-after-server-write", "multi-chunk", "not-segmented", "domain>=254")
+	Require("relay", "eih>=2", "prefix>64KiB", "payload-over-room", "leftover-read", "frag-inside-length-chunk", "path-readfrom", "path-writeto", "server-first", "duplex", "readfrom-source-zero-length-reads", "dial-context-cancelled-after-dial", "dial-context-cancelled-after-excess-payload-write", "nonce-first-carry(>255 seals)", "nonce-second-carry(>65535 seals)", "readfrom-source-eof-with-data", "addr-rechecked-after-server-write", "multi-chunk", "not-segmented", "domain>=254",
+		"mixed-write-side-operations", "server-first-op-is-empty-readfrom-then-data", "server-first-op-is-failing-readfrom-then-data", "client-first-op-is-dataless-readfrom-then-data")
 
 // compactPlan shortens very long write lists for the evidence samples.
 func compactPlan(p plan) map[string]any {
@@ -734,6 +762,22 @@ func classify(p plan, near bool, extra []string) (labels []string, nt bool) {
 	add(len(p.C2S) >= 33000 || len(p.S2C) >= 33000, "nonce-second-carry(>65535 seals)")
 	add(p.EOFWithData && (p.WPathC == pathRF && sum(p.C2S) > 0 || p.WPathS == pathRF && sum(p.S2C) > 0), "readfrom-source-eof-with-data")
 	add(!p.Cls.Segmented, "not-segmented")
+	mixFirst := func(sizes, modes []int, want ...int) bool {
+		// the first write-side operation of the direction is an empty / failing ReadFrom and data follows
+		if len(modes) == 0 || sum(sizes) == 0 {
+			return false
+		}
+		for _, w := range want {
+			if modes[0] == w {
+				return true
+			}
+		}
+		return false
+	}
+	add(p.MixC2S != nil || p.MixS2C != nil, "mixed-write-side-operations")
+	add(mixFirst(p.S2C, p.MixS2C, mixEmptyThenWrite, mixEmptyThenRF), "server-first-op-is-empty-readfrom-then-data")
+	add(mixFirst(p.S2C, p.MixS2C, mixFailThenWrite, mixFailThenRF), "server-first-op-is-failing-readfrom-then-data")
+	add(mixFirst(p.C2S, p.MixC2S, mixEmptyThenWrite, mixEmptyThenRF, mixFailThenWrite, mixFailThenRF), "client-first-op-is-dataless-readfrom-then-data")
 	add(p.Target.Kind == "domain" && p.Target.DomLen >= 254, "domain>=254")
 	add(p.Target.Kind == "v4mapped", "v4mapped")
 	add(near, "near-constant")
